@@ -242,6 +242,19 @@ SEEDS = [
     ("C14_c", "C14", "R-STALE-INDEX"),
     ("C15_c", "C15", "R-BOUNDS-ORDER"),
     ("C15_d", "C15", "R-WIDTH-UNITS"),
+    # round 3
+    ("C01_c", "C01", "R-VARINT"),
+    ("C08_c", "C08", "R-ERR-SWALLOW"),
+    ("C08_d", "C08", "R-TIMEOUT-POLL"),
+    ("C10_d", "C10", "R-INDENT"),
+    ("C16_c", "C16", "R-TC-FLAG"),
+    ("C17_c", "C17", "R-DISPATCH-OPERANDS"),
+    ("C17_d", "C17", "R-OBJ-DEFAULTS"),
+    ("C18_c", "C18", "R-IMPORT"),
+    ("C19_c", "C19", "R-SNAPSHOT-WRITEBACK"),
+    ("C19_d", "C19", "R-RECURSIVE-READ"),
+    ("C20_c", "C20", "R-SERDE-KINDS"),
+    ("C20_d", "C20", "R-SERDE-NARROW"),
 ]
 
 
